@@ -923,6 +923,10 @@ def r20_ownership_edges(facts):
                     if chain and chain[-1] == df["name"] and (callee(n) or "").startswith("core::cell::Cell::<T>::"):
                         n_acc += 1
                         m = callee(n).split("::")[-1]
+                        if m == "replace" and len(n["args"]) > 1:
+                            a1 = strip(n["args"][1])
+                            if a1.get("k") == "Adt" and a1.get("adt") == "core::option::Option" and a1.get("variant") == "None":
+                                m = "take"      # replace(None) is take()
                         c.check(m in ("take", "set"), "delta-access:%s#%s" % (b["def"], m), loc(b, n),
                                 "Cell::%s on the pending-delta slot (a read empties the slot)" % m,
                                 "Cell::%s on the pending-delta slot: can leave a value behind after reading" % m)
